@@ -102,18 +102,26 @@ def check_transform(tr, M, site):
         return ('shape', '%s matrix has shape %r' % (tr[0], M.shape))
     k = tr[0]
     if k == 'lookat':
-        eye, interest = numpy.array(tr[1], float), numpy.array(tr[2], float)
-        scale = 1.0 + float(numpy.max(numpy.abs(eye)))
+        # the implementation receives the numbers in single precision when they come from XML
+        cast = (lambda v: numpy.array(v, dtype=numpy.float32).astype(numpy.float64)) if site == 'loaded' else (lambda v: numpy.array(v, dtype=numpy.float64))
+        eye, interest, up = cast(tr[1]), cast(tr[2]), cast(tr[3])
         o = M.dot([0, 0, 0, 1])
-        if not close(o, list(eye) + [1.0], 1e-5 * scale):
+        if not (abs(o[3] - 1) <= 1e-6 and bool(numpy.all(numpy.abs(o[:3] - eye) <= 1e-6 * float(numpy.max(numpy.abs(eye))) + 1e-30))):
             return ('lookat-origin', 'M.(0,0,0,1) = %r, eye = %r' % (o.tolist(), eye.tolist()))
         z = M.dot([0, 0, -1, 0])
         d = interest - eye
         d = d / math.sqrt(float(d.dot(d)))
         nz = math.sqrt(float(z[:3].dot(z[:3])))
-        if not (nz > 1e-6 and abs(z[3]) <= 1e-5 and close(z[:3] / nz, d, 1e-4)):
+        if not (nz > 0 and abs(z[3]) <= 1e-5 and close(z[:3] / nz, d, 1e-4)):
             return ('lookat-minus-z', 'M.(0,0,-1,0) = %r, unit(interest - eye) = %r' % (z.tolist(), d.tolist()))
-        # the camera frame is right-handed (a rotation of the reference frame, not a reflection)
+        # the frame: Z and X columns are unit vectors (whatever the distance between eye and interest and the
+        # length of up), X is perpendicular to Z and to up, and the frame is right-handed
+        X, Z = M[:3, 0], M[:3, 2]
+        nx = math.sqrt(float(X.dot(X)))
+        un = up / math.sqrt(float(up.dot(up)))
+        if not (abs(nz - 1) <= 1e-4 and abs(nx - 1) <= 1e-4 and abs(float(X.dot(Z))) <= 1e-4 and abs(float(X.dot(un))) <= 1e-4):
+            return ('lookat-frame', 'lookat%r: |Z column| = %r, |X column| = %r, X.Z = %r, X.up/|up| = %r (a unit, mutually '
+                    'perpendicular side and view axis are expected at every scale)' % (tr[1:], nz, nx, float(X.dot(Z)), float(X.dot(un))))
         det = float(numpy.linalg.det(M[:3, :3]))
         if not det > 0:
             return ('lookat-handedness', 'the linear part of the lookat matrix has determinant %r (left-handed frame): %r'
